@@ -15,6 +15,11 @@ and of branch fix-c05b:
   * chrono::day / month accept 255 (`<=` instead of `<`),
   * array<T, 0>::front() / back() check `Size != 0`, array<T, 0>::operator[] checks `false` (both configurations),
   * basic_inplace_string::insert(index, ...) (7 overloads) and erase(index, count) check `index <= size()`.
+and of branch fix-c05c:
+  * the members of the specialisation inplace_vector<T, 0> that have a precondition check `false` before `unreachable()`.
+and of branch fix-c17x:
+  * bitset::to_ulong / to_ullong exist for every width; `to_unsigned_type` checks `not test(i)` for every position at or
+    beyond the digits of the result type (`BS.toUnsigned`).
 -/
 import Tetl.C05.Basic
 namespace Tetl.C05
@@ -175,6 +180,17 @@ def moveInsert (st : Stor) (p : Int) (xs : List Int) : M Out := do
   rotateAt p.toNat b
   pure [p]
 
+/-- the public member `move_insert(position, first, last)` called directly with a pointer range of `xs.length`
+    elements (`ordered = false`: last < first) -/
+def moveInsertRng (st : Stor) (p : Int) (xs : List Int) (ordered : Bool) : M Out := do
+  itInRange p
+  guard kPair (fun _ => ordered)
+  guard kMoveIns (fun s => s.size + xs.length ≤ s.cap)
+  let b ← getSize
+  emplaceEach st xs
+  rotateAt p.toNat b
+  pure [p]
+
 /-- `insert(position, value_type&& x)` -/
 def insertMv (st : Stor) (p : Int) (v : Int) : M Out := do
   guard kInsMv (fun s => s.size != s.cap)
@@ -204,6 +220,21 @@ def destroyGuard (st : Stor) (f l : Nat) : M Unit :=
     guard kNtDestroyF (fun s => f ≤ s.size)
     guard kNtDestroyL (fun s => l ≤ s.size)
   | _ => pure ()
+
+/-- the protected member `unsafe_set_size(newSize)` of the storage base called directly: the check, then `_size = newSize`
+    (no element is constructed or destroyed; a size beyond the constructed elements is reported as damage) -/
+def unsafeSetSize (st : Stor) (n : Nat) : M Out := do
+  setSizeGuard st n
+  shrinkTo n
+  pure []
+
+/-- the protected member `unsafe_destroy(first, last)` of the non-trivial storage called directly with
+    `first = data() + f`, `last = data() + l`: the two checks, then the destructor loop `for (; first != last; ++first)`
+    (which runs off the storage when `last < first`) -/
+def unsafeDestroy (f l : Int) : M Out := do
+  guard kNtDestroyF (fun s => 0 ≤ f ∧ f ≤ s.size)
+  guard kNtDestroyL (fun s => 0 ≤ l ∧ l ≤ s.size)
+  if f ≤ l then pure [] else (fun _ s => .oob s)
 
 /-- `erase(first, last)` -/
 def eraseRng (st : Stor) (f l : Int) : M Out := do
@@ -304,32 +335,63 @@ def kPush (k : Nat) := K fIV "inplace_vector::unchecked_push_back" "size() != ma
 def kPop := K fIV "inplace_vector::pop_back" "not empty()"
 def kSet := K fIV "inplace_vector::unsafe_set_size" "newSize <= max_size()"
 
-def front (k : Nat) : M Out := do
-  guard (kFront k) (fun s => s.size != 0)
-  let x ← rdAt 0
-  pure [x]
-def back (k : Nat) : M Out := do
+/-- the keys of the specialisation `inplace_vector<T, 0>` (every member with a precondition checks `false`) -/
+def kFrontZ (k : Nat) := K fIV "inplace_vector::front" "false" k
+def kBackZ (k : Nat) := K fIV "inplace_vector::back" "false" k
+def kAtZ (k : Nat) := K fIV "inplace_vector::operator[]" "false" k
+def kEmplaceZ := K fIV "inplace_vector::unchecked_emplace_back" "false"
+def kPushZ (k : Nat) := K fIV "inplace_vector::unchecked_push_back" "false" k
+def kPopZ := K fIV "inplace_vector::pop_back" "false"
+
+/-- a member of `inplace_vector<T, 0>`: `TETL_PRECONDITION(false); etl::unreachable();` -/
+def zeroMember (key : Key) : M Out := do
+  guard key (fun _ => false)
+  fun _ s => .oob s
+
+/-- `back()` of the primary template -/
+def backP (k : Nat) : M Out := do
   guard (kBack k) (fun s => s.size != 0)
   let n ← getSize
   let x ← rdAt (n - 1)
   pure [x]
+
+def front (k : Nat) : M Out := do
+  let c ← getCap
+  if c == 0 then zeroMember (kFrontZ k) else do
+    guard (kFront k) (fun s => s.size != 0)
+    let x ← rdAt 0
+    pure [x]
+def back (k : Nat) : M Out := do
+  let c ← getCap
+  if c == 0 then zeroMember (kBackZ k) else backP k
 def at_ (k : Nat) (i : Nat) : M Out := do
-  guard (kAt k) (fun s => i < s.size)
-  let x ← rdAt i
-  pure [x]
-/-- `unchecked_emplace_back` (key `kEmplace`) / `unchecked_push_back` (keys `kPush 0/1`) -/
-def append (key : Key) (v : Int) : M Out := do
-  guard key (fun s => s.size != s.cap)
-  let n ← getSize
-  constructEnd v
-  guard kSet (fun s => n + 1 ≤ s.cap)
-  back 0
+  let c ← getCap
+  if c == 0 then zeroMember (kAtZ k) else do
+    guard (kAt k) (fun s => i < s.size)
+    let x ← rdAt i
+    pure [x]
+/-- `unchecked_emplace_back` (keys `kEmplace` / `kEmplaceZ`) / `unchecked_push_back` (keys `kPush 0/1` / `kPushZ 0/1`) -/
+def append (key keyZ : Key) (v : Int) : M Out := do
+  let c ← getCap
+  if c == 0 then zeroMember keyZ else do
+    guard key (fun s => s.size != s.cap)
+    let n ← getSize
+    constructEnd v
+    guard kSet (fun s => n + 1 ≤ s.cap)
+    backP 0
 def popBack : M Out := do
-  guard kPop (fun s => s.size != 0)
-  let _ ← back 0
-  let n ← getSize
-  guard kSet (fun s => n - 1 ≤ s.cap)
-  shrinkTo (n - 1)
+  let c ← getCap
+  if c == 0 then zeroMember kPopZ else do
+    guard kPop (fun s => s.size != 0)
+    let _ ← backP 0
+    let n ← getSize
+    guard kSet (fun s => n - 1 ≤ s.cap)
+    shrinkTo (n - 1)
+    pure []
+/-- the private member `unsafe_set_size(newSize)` called directly -/
+def unsafeSetSize (n : Nat) : M Out := do
+  guard kSet (fun s => n ≤ s.cap)
+  shrinkTo n
   pure []
 end IV
 
@@ -458,6 +520,12 @@ def kEraseIdx := K fST (c ++ "erase") "index <= size()"
 def setSizeGuard (newSize : Nat) : M Unit := do
   guard kSet (fun s => newSize ≤ s.cap)
   guard (kAt 0) (fun _ => newSize < newSize + 1)
+
+/-- the private member `unsafe_set_size(newSize)` called directly (the terminator is written at `newSize`) -/
+def unsafeSetSize (n : Nat) : M Out := do
+  setSizeGuard n
+  shrinkTo n
+  pure []
 
 /-- the contents become `l` (the size check is `setSizeGuard`) -/
 def ctorPtr (xs : List Int) (len : Nat) : M Out := do
@@ -617,6 +685,9 @@ def kReset := K fBS "bitset::reset" "pos < size()"
 def kFlip := K fBS "bitset::flip" "pos < size()"
 def kAt (k : Nat) := K fBS "bitset::operator[]" "pos < size()" k
 def kTest := K fBS "bitset::test" "pos < size()"
+def kToU := K fBS "bitset::to_unsigned_type" "not test(i)"
+/-- the check of `etl::set_bit(word, pos)` (= `SC.kBit "set_bit"`), reached from `to_unsigned_type` -/
+def kSetBit := K "_bit/set_bit.hpp" "set_bit" "pos < static_cast<UInt>(etl::numeric_limits<UInt>::digits)"
 
 def inSize (pos : Nat) : St → Bool := fun s => pos < s.size
 
@@ -646,6 +717,41 @@ def ctor (pos n bits : Nat) : M Out := do
   guard kCtor (fun s => pos ≤ s.size)
   let sz ← getSize
   VW.sub pos (min (min n (sz - pos)) bits)
+
+/-- `bitset::test(i)` as a callee: its check, `basic_bitset::unchecked_test(i)` with its check, the read -/
+def testBit (i : Nat) : M Int := do
+  guard kTest (inSize i)
+  guard kBBTest (inSize i)
+  rdAt i
+
+/-- `for (auto i = idx; i < size(); ++i) { TETL_PRECONDITION(not test(i)); }` for `n` more rounds from position `i` -/
+def fitsLoop : Nat → Nat → M Unit
+  | 0, _ => pure ()
+  | n + 1, i => do
+    let b ← testBit i
+    guard kToU (fun _ => b == 0)
+    fitsLoop n (i + 1)
+
+/-- `for (UInt i{0}; i != idx; ++i) { if (test(i)) { result = set_bit(result, i); } }` for `n` more rounds from position `i`;
+    `set_bit(word, pos)` carries its own check `pos < digits` and computes `word | (UInt(1) << pos)` -/
+def sumLoop (digits : Nat) : Nat → Nat → Nat → M Nat
+  | 0, _, r => pure r
+  | n + 1, i, r => do
+    let b ← testBit i
+    if b != 0 then do
+      guard kSetBit (fun _ => i < digits)
+      sumLoop digits n (i + 1) ((r ||| 2 ^ i) % 2 ^ digits)
+    else sumLoop digits n (i + 1) r
+
+/-- `to_ulong()` / `to_ullong()` = `to_unsigned_type<UInt>()` with `digits` the width of `UInt`: the "value fits" loop over
+    the positions at or beyond `digits`, then the accumulation of the low bits.  The result is printed as its two
+    32-bit halves (low, high). -/
+def toUnsigned (digits : Nat) : M Out := do
+  let n ← getSize
+  let idx := min n digits
+  fitsLoop (n - idx) idx
+  let r ← sumLoop digits idx 0 0
+  pure [((r % 4294967296 : Nat) : Int), ((r / 4294967296 : Nat) : Int)]
 end BS
 
 /-! ## scalar operations -/
@@ -752,7 +858,9 @@ inductive Op where
   | strReplaceSub (pos count : Nat) (src : List Int) (pos2 count2 : Nat)
   | strInsert (k index : Nat) (xs : List Int) | strInsertFill (index count : Nat) (ch : Int) | strEraseIdx (index count : Nat)
   | optDeref (k : Nat) | expDeref (k : Nat) | expError (k : Nat) | varIdx (k i : Nat) | varGet (k i : Nat)
-  | bb (which pos : Nat) (v : Int) | bs (which pos : Nat) (v : Int) | bsCtor (pos n bits : Nat)
+  | bb (which pos : Nat) (v : Int) | bs (which pos : Nat) (v : Int) | bsCtor (pos n bits : Nat) | bsToU (digits : Nat)
+  | svMoveInsert (st : Stor) (p : Int) (xs : List Int) (ordered : Bool)
+  | svUnsafeSetSize (st : Stor) (n : Nat) | svUnsafeDestroy (f l : Int) | ivUnsafeSetSize (n : Nat) | strUnsafeSetSize (n : Nat)
   | bit (which w pos : Nat) | divSat (x y : Int) | dayCtor (d : Nat) | monthCtor (m : Nat) | stride (l : String) (r : Nat)
   | nullChecks (ks : List (Key × Bool)) | setCtor (n : Nat) (ordered : Bool)
   deriving Repr, Inhabited
@@ -771,7 +879,7 @@ def run : Op → M Out
   | .svCtorN st n => SV.ctorN st n | .svCtorNV st n v => SV.ctorNV st n v | .svCtorRng st xs o => SV.ctorRng st xs o
   | .svClear st => do SV.clear st; pure []
   | .ivFront k => IV.front k | .ivBack k => IV.back k | .ivAt k i => IV.at_ k i
-  | .ivEmplaceBack v => IV.append IV.kEmplace v | .ivPush k v => IV.append (IV.kPush k) v | .ivPop => IV.popBack
+  | .ivEmplaceBack v => IV.append IV.kEmplace IV.kEmplaceZ v | .ivPush k v => IV.append (IV.kPush k) (IV.kPushZ k) v | .ivPop => IV.popBack
   | .vwAt i => VW.at_ i | .vwFront => VW.front | .vwBack => VW.back
   | .vwRemovePrefix n => VW.removePrefix n | .vwRemoveSuffix n => VW.removeSuffix n
   | .vwCopy c p => VW.copy c p | .vwSubstr p c => VW.substr p c
@@ -788,7 +896,10 @@ def run : Op → M Out
   | .strInsert k i xs => STR.insert k i xs | .strInsertFill i n ch => STR.insertFill i n ch | .strEraseIdx i n => STR.eraseIdx i n
   | .optDeref k => OEV.optDeref k | .expDeref k => OEV.expDeref k | .expError k => OEV.expError k
   | .varIdx k i => OEV.varIdx k i | .varGet k i => OEV.varGet k i
-  | .bb w p v => BS.bb w p v | .bs w p v => BS.bs w p v | .bsCtor p n b => BS.ctor p n b
+  | .bb w p v => BS.bb w p v | .bs w p v => BS.bs w p v | .bsCtor p n b => BS.ctor p n b | .bsToU d => BS.toUnsigned d
+  | .svMoveInsert st p xs o => SV.moveInsertRng st p xs o
+  | .svUnsafeSetSize st n => SV.unsafeSetSize st n | .svUnsafeDestroy f l => SV.unsafeDestroy f l
+  | .ivUnsafeSetSize n => IV.unsafeSetSize n | .strUnsafeSetSize n => STR.unsafeSetSize n
   | .bit wh w p => SC.bit wh w p | .divSat x y => SC.divSat x y | .dayCtor d => SC.dayCtor d | .monthCtor m => SC.monthCtor m
   | .stride l r => SC.stride l r | .nullChecks ks => SC.nullChecks ks | .setCtor n o => SC.setCtor n o
 
